@@ -43,6 +43,7 @@ type Contract struct {
 	Assigns    []string
 	AssignsSet bool // an assigns clause was given ("nothing" = set with empty list)
 	AssignsAny bool // assigns *
+	Except     []string // with assigns *: location sets that bound the change of their heaps ("assigns * except ...": heaps named there change only inside the given sets)
 	Loops      map[int]*LoopSpec
 	IsIface    bool
 	Lets       [][2]string // let name = expr (evaluated at entry)
@@ -70,7 +71,7 @@ func (c *Contract) hasMode(m string) bool {
 var clauseKeywords = map[string]bool{
 	"func": true, "props": true, "mode": true, "requires": true, "ensures": true,
 	"assigns": true, "decreases": true, "loop": true, "let": true, "global": true,
-	"lemma": true, "pure": true, "fieldinv": true, "private": true, "table": true,
+	"lemma": true, "pure": true, "fieldinv": true, "private": true, "table": true, "immutable": true,
 }
 
 var nameRe = regexp.MustCompile(`^([A-Za-z_][A-Za-z0-9_\[\]\.\-]*)(\{[A-Z0-9, ]+\})?:\s*(.*)$`)
@@ -91,6 +92,10 @@ type FieldInv struct {
 	Type    string
 	Field   string
 	Clause  *Clause
+	Immutable bool // written only while the object is being constructed (fresh)
+	Index   int
+	TypeID  int
+	LeafKey string
 }
 
 // ContractFile is the result of parsing one verif_contracts.go file.
@@ -158,6 +163,19 @@ func parseContractFile(path, pkgPath string) (*ContractFile, error) {
 			out.Globals = append(out.Globals, &GlobalFact{PkgPath: pkgPath, Name: rest, File: base, Line: ln})
 		case "table":
 			out.Tables = append(out.Tables, &GlobalFact{PkgPath: pkgPath, Name: rest, File: base, Line: ln})
+		case "immutable":
+			fs := strings.Fields(rest)
+			tf := strings.SplitN(fs[0], ".", 2)
+			if len(tf) != 2 {
+				return nil, fmt.Errorf("%s:%d: bad immutable", path, ln)
+			}
+			cl := &Clause{Kind: "fieldinv", Name: "immutable", Expr: "true", File: base, Line: ln}
+			if len(fs) > 1 {
+				for _, p := range strings.Split(strings.Trim(fs[1], "{}"), ",") {
+					cl.Props = append(cl.Props, strings.TrimSpace(p))
+				}
+			}
+			out.FieldInvs = append(out.FieldInvs, &FieldInv{PkgPath: pkgPath, Type: tf[0], Field: tf[1], Clause: cl, Immutable: true})
 		case "fieldinv":
 			fs := strings.SplitN(rest, " ", 2)
 			tf := strings.SplitN(fs[0], ".", 2)
@@ -203,8 +221,13 @@ func parseContractFile(path, pkgPath string) (*ContractFile, error) {
 			case "assigns":
 				cur.AssignsSet = true
 				if rest == "nothing" {
-				} else if rest == "*" {
+				} else if rest == "*" || strings.HasPrefix(rest, "* except ") {
 					cur.AssignsAny = true
+					if strings.HasPrefix(rest, "* except ") {
+						for _, p := range splitTop(strings.TrimPrefix(rest, "* except "), ',') {
+							cur.Except = append(cur.Except, strings.TrimSpace(p))
+						}
+					}
 				} else {
 					for _, p := range splitTop(rest, ',') {
 						cur.Assigns = append(cur.Assigns, strings.TrimSpace(p))
